@@ -180,6 +180,20 @@ CLAIMED["C02"] = dict(
     technique="bounded runtime-contract check with independent isomorphism oracle (stand-in) + discharged contract on clone_without_regions",
 )
 
+CLAIMED["C14"] = dict(
+    category="proof",
+    text="Kernels proved for all operand values per width: for EVERY concrete subclass of SignlessIntegerBinaryOperation found by introspection, "
+         "py_operation agrees with the MLIR semantics on bit patterns (folded constants are bit-exact), is_right_unit / is_right_zero are genuine "
+         "identities / absorbing elements, Commutative classes commute; _fold_const_operation equals the IEEE-754 operation (signed zeros, infinities, "
+         "NaNs); ApplyCmpiPredicateToEqualOperands replaces cmpi p,x,x by the predicate's value. The pass-level statement (canonicalize, cse, "
+         "constant-fold-interp, test-constant-folding passes never change results and never fail) is decided by a bounded stand-in: generated programs "
+         "evaluated before/after with an independent reference evaluator on boundary inputs.",
+    note="The fold / pattern plumbing through the rewriter, CSE and the driver are bounded only; f32 double rounding assumed; scf/cf canonicalizations "
+         "not covered; known finding: constant-fold-interp of unsigned cmpi (same root cause as C15). pyvc + z3 trusted.",
+    design="§4 C14",
+    technique="contract-based deductive verification of per-class semantic lemmas generated over the live subclass list (SMT) + bounded stand-in with reference evaluator",
+)
+
 NOT_APPLICABLE = {
     "C04": "whole Printer∘Parser composition over every dialect: recursive string programs; no per-function contract within reach of the SMT-backed generator expresses it",
     "C05": "about 80 dialects of hand-written print/parse pairs and a format-string interpreter; same obstacle as C04",
@@ -193,7 +207,7 @@ NOT_APPLICABLE = {
     "C28": "result preservation of an e-graph pipeline: whole-program statement with no per-function postcondition implying it",
 }
 
-NOT_REACHED = ["C06", "C09", "C11", "C14", "C18", "C25"]
+NOT_REACHED = ["C06", "C09", "C11", "C18", "C25"]
 
 
 def main():
